@@ -64,6 +64,9 @@ package handler
 //@ ensures[C06,C17] r0 == nil || !(r0.MessageType == 1094 || r0.MessageType == 1097) || r0.SentAt == "" ==> rtcmHandler.startOfGalileoWeek == h0.startOfGalileoWeek && rtcmHandler.timestampFromPreviousGalileoMessage == h0.timestampFromPreviousGalileoMessage
 //@ ensures[C06,C17] r0 == nil || !(r0.MessageType == 1124 || r0.MessageType == 1127) || r0.SentAt == "" ==> rtcmHandler.startOfBeidouWeek == h0.startOfBeidouWeek && rtcmHandler.timestampFromPreviousBeidouMessage == h0.timestampFromPreviousBeidouMessage
 //@ ensures[C06,C17] r0 == nil || !(r0.MessageType == 1084 || r0.MessageType == 1087) || r0.SentAt == "" ==> rtcmHandler.startOfGlonassWeek == h0.startOfGlonassWeek && rtcmHandler.glonassDayFromPreviousMessage == h0.glonassDayFromPreviousMessage
+// a frame that is not accepted (no message, or a non-RTCM message) leaves the handler exactly as it was:
+// it costs only itself, the times reported for its neighbours included
+//@ ensures[C12] r0 == nil || r0.MessageType < 0 ==> *rtcmHandler == h0
 //@ ensures[C01] r0 != nil && r0.MessageType >= 0 && r1 == nil ==> ValidFrame(r0.RawData) && r0.MessageType == bits(r0.RawData, 24, 12)
 //@ ensures[C01] r0 != nil && r0.MessageType >= 0 && !(len(bitStream) >= 5 && bits(bitStream, 14, 10) == 0) ==> ValidFrame(r0.RawData) && r0.MessageType == bits(r0.RawData, 24, 12)
 //@ ensures[C02] r1 != nil ==> errmsg(r1) != "done"
